@@ -22,6 +22,7 @@ import dns.rdata
 import dns.rdataset
 import dns.transaction
 import dns.versioned
+import dns.btreezone
 import dns.zone
 
 from harness import sched as S
@@ -209,6 +210,7 @@ class Observer:
         self.reader_obs = []  # (tid, version id, version content, seen)
         self.hist = {}
         self.blocked_on_wait = set()
+        self.in_hook = {}  # tid -> "setup" | "freeze" while inside a version-factory hook
         self.lookup_failed = set()  # readers whose reader(id=..)/reader(serial=..) raised KeyError
         self.failing = set()  # writers during whose commit the pruning policy raised
         self.policy_calls = 0
@@ -350,6 +352,8 @@ class Observer:
             if self.roles[tid] in READERS:
                 self.bad("C12/readers-nonblocking/reader-waits-on-event", f"reader {tid} waited on event {what[1]}")
             self.emit(tid, f"wait.{what[1]}")
+        elif k == "setup":  # the writable-version factory is being called (deferred _setup_version)
+            self.emit(tid, "setup")
         elif k == "waitto":  # a wait with a timeout returned without the event being set
             self.emit(tid, f"waitto.{what[1]}")
         elif k == "ret":  # writer() returned
@@ -387,6 +391,10 @@ class Observer:
     def blocked(self, tid, what):
         if what[0] == "wait" and self.lock.holder == tid:
             self.bad("C12/readers-nonblocking/wait-inside-lock", f"thread {tid} blocks on event {what[1]} while holding the version lock")
+        if what[0] == "acq" and what[2] in self.in_hook:
+            kind = "reader" if self.roles[tid] in READERS else "writer"
+            self.bad("C12/readers-nonblocking/blocked-by-hook",
+                     f"{kind} {tid} blocks on the version lock while thread {what[2]} is inside the {self.in_hook[what[2]]} hook under that lock")
         if what[0] == "acq" and what[2] == tid:
             self.bad("C12/deadlock/self-deadlock", f"thread {tid} re-acquires the version lock it holds")
         if what[0] == "wait":
@@ -413,7 +421,7 @@ class Observer:
         self.admitted.append(tid)
 
 
-def run_schedule(roles, mode, chooser, max_steps=None, policy=None):
+def run_schedule(roles, mode, chooser, max_steps=None, policy=None, zone_kind="plain"):
     """run one schedule on the implementation; returns a result dict"""
     saved = dns.versioned.threading
     res = {}
@@ -423,10 +431,37 @@ def run_schedule(roles, mode, chooser, max_steps=None, policy=None):
     try:
         sch = S.Scheduler(chooser, mode=mode, traced=traced, max_steps=max_steps)
         dns.versioned.threading = S.ShimThreading(sch)
-        zone = dns.versioned.Zone("example.")
+        zone = dns.btreezone.Zone("example.") if zone_kind == "btree" else dns.versioned.Zone("example.")
         lock = zone._version_lock
         obs = Observer(zone, lock, roles)
         sch.observer = obs
+        # the public version-factory hooks: where the node map is copied (`_setup_version`) and frozen (commit).  Both
+        # must run outside the version lock; the thread is parked there (a yield point) so that readers and further
+        # writers get their chance while it is inside.
+        wfac = zone.writable_version_factory or dns.zone.WritableVersion
+        ifac = zone.immutable_version_factory or dns.zone.ImmutableVersion
+
+        def hooked(what, inner):
+            def hook(*a):
+                me = sch.current()
+                if me is None:
+                    return inner(*a)
+                sch._micro(me)
+                if lock.holder == me.tid:
+                    obs.bad(f"C12/readers-nonblocking/{what}-inside-lock",
+                            f"thread {me.tid} runs the {what} hook (copy of the node map / user callback) while holding the version lock")
+                if what == "setup":
+                    sch.op(("setup",))
+                obs.in_hook[me.tid] = what
+                try:
+                    sch.mark("hook-" + what, yield_here=True)
+                    return inner(*a)
+                finally:
+                    obs.in_hook.pop(me.tid, None)
+            return hook
+
+        zone.writable_version_factory = hooked("setup", wfac)
+        zone.immutable_version_factory = hooked("freeze", ifac)
         if policy:
             def prune_policy(z, version):
                 obs.policy_calls += 1
@@ -626,7 +661,7 @@ def eval_case(ctx: Ctx, c: dict, chooser=None):
             chooser = S.ReplayChooser(c["choices"])
         else:
             chooser = make_chooser(tuple(c["strategy"]), Rng(c["seed"]), len(roles))
-    r = run_schedule(roles, mode, chooser, policy=c.get("policy"))
+    r = run_schedule(roles, mode, chooser, policy=c.get("policy"), zone_kind=c.get("zone", "plain"))
     full = dict(c, choices=r["choices"])
     for k, v in r["hist"].items():
         ctx.count("step." + k, v)
@@ -635,7 +670,7 @@ def eval_case(ctx: Ctx, c: dict, chooser=None):
     ctx.count("schedule.choice-points", r["choice_points"])
     ctx.count("schedule.switches", r["switches"])
     op = ("c12.run " + ",".join(r["model_roles"]) + " @" + mode + "/" + sl(r["choices"]) + "/" + policy_name(c.get("policy"))
-          + " " + " ".join(r["recs"]))
+          + "/" + c.get("zone", "plain") + " " + " ".join(r["recs"]))
     ctx.corr(op, " ".join(r["states"]), full)
     seen = set()
     for sig, what in r["fails"]:
@@ -689,6 +724,9 @@ def generate(ctx: Ctx, n: int, rng):
         if mode == "sync" and strategy[0] == "pct":
             strategy = ("pct", strategy[1], 40)
         c = {"kind": "sched", "roles": roles, "mode": mode, "strategy": list(strategy), "seed": rng.next() & 0xFFFFFFFF}
+        if rng.chance(1, 5):
+            c["zone"] = "btree"  # dns.btreezone.Zone: same admission code, its own version factories and node map
+            ctx.count("zone.btree")
         if rng.chance(1, 4):
             # a user-supplied pruning policy that raises: always / on its k-th call / only while readers are open
             c["policy"] = list(rng.choice([["always"], ["always"], ["kth", 1], ["kth", 2], ["kth", 3], ["readers"], ["readers"]]))
@@ -825,6 +863,7 @@ def impl_of_op(op: str):
         raise ValueError("the op line does not say which lookup the failed reader made; use the replay file's case")
     parts = toks[2][1:].split("/")
     mode, ch, pol = parts[0], (parts[1] if len(parts) > 1 else ""), (parts[2] if len(parts) > 2 else "-")
+    zk = parts[3] if len(parts) > 3 else "plain"
     choices = [] if ch in ("", "-") else [int(x) for x in ch.split(".")]
-    r = run_schedule(roles, mode, S.ReplayChooser(choices), policy=policy_spec(pol))
+    r = run_schedule(roles, mode, S.ReplayChooser(choices), policy=policy_spec(pol), zone_kind=zk)
     return " ".join(r["states"])
